@@ -544,10 +544,101 @@ Section InRange.
       by (rewrite map_map; apply ND_vid_images).
     rewrite filter_map_map. cbn [fst snd].
     rewrite (filter_map_Some _ (fun i => (key_of i, import_pose (centre (pose_of_img i), rotation (pose_of_img i))))).
-    - apply al_of_list_nodup. rewrite map_map. apply ND_key_of.
+    - apply al_of_list_nodup. unfold xposes. rewrite map_map. apply ND_key_of.
     - intros i Hi.
       rewrite (lookup_map_key (fun i => vid d (i_name i)) (fun i => vid d (i_name i)) _ i ND_vid_images Hi).
       rewrite (lookup_map_key (fun i => vid d (i_name i)) (fun i => cid d (i_cam i)) _ i ND_vid_images Hi).
       reflexivity.
+  Qed.
+
+  (* matches *)
+  Definition normf (e : (path * path) * list (Z * Z)) : (path * path) * list (Z * Z) :=
+    if sltb (pstr (rn (snd (fst e)))) (pstr (rn (fst (fst e))))
+    then ((rn (snd (fst e)), rn (fst (fst e))), map swap (snd e))
+    else ((rn (fst (fst e)), rn (snd (fst e))), snd e).
+
+  Lemma name_of_ts_x n : In n (names d) -> name_of_ts ximgs (vid d n) = Some (rn n).
+  Proof.
+    intros Hn. destruct (In_names_image n Hn) as [i [Hi <-]].
+    unfold name_of_ts, ximgs. rewrite find_map. cbn [fst snd key_of].
+    rewrite (find_ext_in _ (fun y => eqb (vid d (i_name y)) (vid d (i_name i)))) by (intros; reflexivity).
+    rewrite (find_map_key (fun i => vid d (i_name i)) _ i ND_vid_images Hi). reflexivity.
+  Qed.
+  Lemma import_match_x e : In e (d_matches d) -> import_match ximgs (xmatch e) = Some (normf e).
+  Proof.
+    intros He. destruct (match_members e He) as (A & B & _). unfold import_match, xmatch. cbn [fst snd].
+    rewrite (name_of_ts_x _ A), (name_of_ts_x _ B). unfold normf.
+    destruct (sltb _ _); reflexivity.
+  Qed.
+
+  Lemma eqb_rn a b : In a (names d) -> In b (names d) -> eqb (rn a) (rn b) = eqb a b.
+  Proof.
+    intros Ha Hb. destruct (eqb_spec a b) as [->|N]; [apply eqb_refl|].
+    apply neq_eqb. intros E. apply N, rn_inj; assumption.
+  Qed.
+  Lemma same_pair_normf e x y : In (fst (fst e)) (names d) -> In (snd (fst e)) (names d) -> In x (names d) -> In y (names d) ->
+    same_pair (fst (normf e)) (rn x, rn y) = same_pair (fst e) (x, y).
+  Proof.
+    intros A B X Y. unfold normf, same_pair. destruct (sltb _ _); cbn [fst snd]; rewrite !eqb_rn by assumption.
+    - destruct (eqb (snd (fst e)) x), (eqb (fst (fst e)) y), (eqb (snd (fst e)) y), (eqb (fst (fst e)) x); reflexivity.
+    - reflexivity.
+  Qed.
+  Lemma same_pair_normf2 e e' : In (fst (fst e)) (names d) -> In (snd (fst e)) (names d) ->
+    In (fst (fst e')) (names d) -> In (snd (fst e')) (names d) ->
+    fst (normf e) = fst (normf e') -> same_pair (fst e) (fst e') = true.
+  Proof.
+    intros A B A' B' E.
+    assert (S : same_pair (fst (normf e)) (fst (normf e')) = true).
+    { rewrite E. unfold same_pair. rewrite !eqb_refl. reflexivity. }
+    revert S. clear E. unfold normf at 2. destruct (sltb _ _); cbn [fst].
+    - rewrite same_pair_normf by assumption. unfold same_pair. cbn [fst snd]. rewrite orb_comm. tauto.
+    - rewrite same_pair_normf by assumption. destruct (fst e'); tauto.
+  Qed.
+  Lemma ND_normf_aux (l : list ((path * path) * list (Z * Z))) :
+    (forall e, In e l -> In (fst (fst e)) (names d) /\ In (snd (fst e)) (names d)) ->
+    pairs_distinct (map fst l) = true -> NoDup (map (fun e => fst (normf e)) l).
+  Proof.
+    induction l as [|e l IH]; intros M PD; cbn; [constructor|].
+    cbn in PD. apply andb_true_iff in PD. destruct PD as [N PD]. apply negb_true_iff in N.
+    constructor.
+    - intros Hin. apply in_map_iff in Hin. destruct Hin as [e' [E He']].
+      assert (S : same_pair (fst e) (fst e') = true).
+      { apply same_pair_normf2; try (apply M; left; reflexivity); try (apply M; right; exact He'). symmetry; exact E. }
+      assert (X : existsb (same_pair (fst e)) (map fst l) = true).
+      { apply existsb_exists. exists (fst e'). split; [apply in_map; exact He'|exact S]. }
+      congruence.
+    - apply IH; [intros e' He'; apply M; right; exact He'|exact PD].
+  Qed.
+  Lemma ND_normf : NoDup (map (fun e => fst (normf e)) (d_matches d)).
+  Proof.
+    apply ND_normf_aux; [|apply ir_facts]. intros e He. destruct (match_members e He) as (A & B & _). auto.
+  Qed.
+  Definition xmatches := map normf (d_matches d).
+  Lemma import_matches_x : import_matches ximgs (map xmatch (d_matches d)) = Some xmatches.
+  Proof.
+    unfold import_matches. rewrite (mapM_Some _ (fun x => match import_match ximgs x with Some y => y | None => (([], []), []) end)).
+    - cbn [option_map]. f_equal. rewrite map_map.
+      rewrite (map_ext_in _ normf) by (intros e He; rewrite (import_match_x e He); reflexivity).
+      apply al_of_list_nodup. rewrite map_map. apply ND_normf.
+    - intros x Hx. apply in_map_iff in Hx. destruct Hx as [e [<- He]]. rewrite (import_match_x e He). reflexivity.
+  Qed.
+
+  Lemma swap_swap ps : map swap (map swap ps) = ps.
+  Proof. rewrite map_map. rewrite <- (map_id ps) at 2. apply map_ext. intros [a b]; reflexivity. Qed.
+
+  (* the matching relation between two images is the same, whatever the orientation either side stores *)
+  Lemma match_rel_x x y : In x (names d) -> In y (names d) ->
+    match_rel xmatches (rn x) (rn y) = match_rel (d_matches d) x y.
+  Proof.
+    intros X Y. unfold match_rel, xmatches. rewrite find_map.
+    rewrite (find_ext_in _ (fun e => same_pair (fst e) (x, y))).
+    2:{ intros e He. destruct (match_members e He) as (A & B & _). apply same_pair_normf; assumption. }
+    destruct (find (fun e => same_pair (fst e) (x, y)) (d_matches d)) as [e|] eqn:F; [|reflexivity].
+    apply find_some in F. destruct F as [He S]. destruct (match_members e He) as (A & B & NE).
+    cbn [option_map]. f_equal. unfold normf. unfold same_pair in S. cbn [fst snd] in S.
+    destruct (sltb _ _); cbn [fst snd]; rewrite eqb_rn by assumption; [|reflexivity].
+    destruct (eqb_spec (snd (fst e)) x) as [E1|N1], (eqb_spec (fst (fst e)) x) as [E2|N2];
+      try reflexivity; try (apply swap_swap); try congruence.
+    exfalso. rewrite (neq_eqb _ _ N1), (neq_eqb _ _ N2) in S. rewrite andb_false_r in S. cbn in S. discriminate.
   Qed.
 End InRange.
